@@ -9,7 +9,7 @@
    emitted is delivered in order; at least InitialRetransmitInterval/2 passes between rounds, which
    the interval law guarantees) completes the handshake on both sides.
    Definitions and the generic soundness of the checker. *)
-From Coq Require Import List NArith Bool Lia.
+From Coq Require Import List NArith Bool Lia FMapPositive.
 From DtlsV Require Import Hs.Hs13 Hs.Hs13Eq.
 Import ListNotations.
 Open Scope N_scope.
@@ -39,48 +39,10 @@ Definition dins_all (ds l : list dgram) : list dgram := fold_left (fun acc d => 
 
 (* ---------- states and moves ---------- *)
 
-(* ACK datagrams are not remembered individually: the adversary may hand an endpoint an ACK (of
-   epoch 2, or 3 once its sender writes in epoch 3) that acknowledges ANY non-empty set of protected
-   handshake fragments its sender has received so far - every ACK the sender ever emitted is of
-   that form, because an ACK lists records that were received, and what has been received only
-   grows *)
-Definition is_ack_dgram (d : dgram) : bool :=
-  forallb (fun r => match r_body r with Ack _ => true | Hs _ _ _ _ _ => false end) d.
-Definition hs_dgrams (ds : list dgram) : list dgram := filter (fun d => negb (is_ack_dgram d)) ds.
-
-(* the protected handshake fragments the peer of a [client] endpoint can ever send *)
-Definition peer_frags (c : cfg) (client : bool) : list frag :=
-  fold_left (fun acc r => if 2 <=? r_ep r then match rec_frag r with Some f => fadd f acc | None => acc end else acc)
-            (flat_map (fun fd => if client
-                                 then (if N.eqb (fst fd) F2 || N.eqb (fst fd) F4 || N.eqb (fst fd) FN then snd fd else [])
-                                 else (if N.eqb (fst fd) F1 || N.eqb (fst fd) F3 || N.eqb (fst fd) F5 then snd fd else []))
-                      (c_fl c)) [].
-
-(* ... and those of them the endpoint has received: in a message already reassembled, or waiting in
-   the fragment buffer *)
-Definition rcvd (c : cfg) (e : ep) : list frag :=
-  filter (fun f => let '(m, fo, _) := f in (m <? e_fbcur e) || existsb (same_slot m fo) (e_frags e))
-         (peer_frags c (e_client e)).
-
-Fixpoint sublists {A} (l : list A) : list (list A) :=
-  match l with
-  | [] => [[]]
-  | x :: l' => let r := sublists l' in map (cons x) r ++ r
-  end.
-
-(* the ACKs an endpoint may have sent: (epoch, fragments) *)
-Definition acks_of (c : cfg) (e : ep) : list (N * list frag) :=
-  flat_map (fun epo => if (epo <=? e_lepoch e) then
-                         flat_map (fun fs => match fs with [] => [] | _ => [(epo, fs)] end) (sublists (rcvd c e))
-                       else []) [2; 3].
-
-Definition ack_eqb (a b : N * list frag) : bool := N.eqb (fst a) (fst b) &&& lfeqb (snd a) (snd b).
-Definition mk_ack (a : N * list frag) : dgram := [{| r_ep := fst a; r_body := Ack (snd a); r_size := 0 |}].
-
 Record ustate := {
   u_c : ep; u_s : ep;
   u_rc : bool; u_rs : bool;      (* the endpoint sent something less than InitialRetransmitInterval/2 ago *)
-  u_nc : list dgram;             (* the handshake datagrams the client has sent so far *)
+  u_nc : list dgram;             (* the datagrams the client has sent so far *)
   u_ns : list dgram
 }.
 
@@ -92,24 +54,20 @@ Definition urecent (c : cfg) (r : bool) (e' : ep) : bool :=
 
 Definition uinit (c : cfg) : ustate :=
   {| u_c := untime (ep_init c true); u_s := untime (ep_init c false); u_rc := true; u_rs := true;
-     u_nc := dins_all (hs_dgrams (snd (ep_start c true))) [];
-     u_ns := dins_all (hs_dgrams (snd (ep_start c false))) [] |}.
+     u_nc := dins_all (snd (ep_start c true)) []; u_ns := dins_all (snd (ep_start c false)) [] |}.
 
-Inductive umove :=
-| UDeliverToServer (i : nat) | UDeliverToClient (i : nat)
-| UAckToServer (a : N * list frag) | UAckToClient (a : N * list frag)
-| UTimerC | UTimerS | UTick.
+Inductive umove := UDeliverToServer (i : nat) | UDeliverToClient (i : nat) | UTimerC | UTimerS | UTick.
 
 Definition timer_pending (e : ep) : bool := match next_timer e with Some _ => true | None => false end.
 
 Definition to_server (c : cfg) (s : ustate) (d : dgram) : ustate :=
   let '(e', out) := on_datagram c (u_s s) d (unow c (u_rs s)) in
   {| u_c := u_c s; u_s := untime e'; u_rc := u_rc s; u_rs := urecent c (u_rs s) e';
-     u_nc := u_nc s; u_ns := dins_all (hs_dgrams out) (u_ns s) |}.
+     u_nc := u_nc s; u_ns := dins_all out (u_ns s) |}.
 Definition to_client (c : cfg) (s : ustate) (d : dgram) : ustate :=
   let '(e', out) := on_datagram c (u_c s) d (unow c (u_rc s)) in
   {| u_c := untime e'; u_s := u_s s; u_rc := urecent c (u_rc s) e'; u_rs := u_rs s;
-     u_nc := dins_all (hs_dgrams out) (u_nc s); u_ns := u_ns s |}.
+     u_nc := dins_all out (u_nc s); u_ns := u_ns s |}.
 
 Definition ustep (c : cfg) (s : ustate) (m : umove) : option ustate :=
   match m with
@@ -117,30 +75,24 @@ Definition ustep (c : cfg) (s : ustate) (m : umove) : option ustate :=
       match nth_error (u_nc s) i with Some d => Some (to_server c s d) | None => None end
   | UDeliverToClient i =>
       match nth_error (u_ns s) i with Some d => Some (to_client c s d) | None => None end
-  | UAckToServer a =>
-      if existsb (ack_eqb a) (acks_of c (u_c s)) then Some (to_server c s (mk_ack a)) else None
-  | UAckToClient a =>
-      if existsb (ack_eqb a) (acks_of c (u_s s)) then Some (to_client c s (mk_ack a)) else None
   | UTimerC =>
       if timer_pending (u_c s) then
         let '(e', out) := on_timer c (u_c s) in
         Some {| u_c := untime e'; u_s := u_s s; u_rc := u_rc s; u_rs := u_rs s;
-                u_nc := dins_all (hs_dgrams out) (u_nc s); u_ns := u_ns s |}
+                u_nc := dins_all out (u_nc s); u_ns := u_ns s |}
       else None
   | UTimerS =>
       if timer_pending (u_s s) then
         let '(e', out) := on_timer c (u_s s) in
         Some {| u_c := u_c s; u_s := untime e'; u_rc := u_rc s; u_rs := u_rs s;
-                u_nc := u_nc s; u_ns := dins_all (hs_dgrams out) (u_ns s) |}
+                u_nc := u_nc s; u_ns := dins_all out (u_ns s) |}
       else None
   | UTick => Some {| u_c := u_c s; u_s := u_s s; u_rc := false; u_rs := false; u_nc := u_nc s; u_ns := u_ns s |}
   end.
 
 Definition moves_of (c : cfg) (s : ustate) : list umove :=
   map UDeliverToServer (seq 0 (length (u_nc s))) ++
-  map UDeliverToClient (seq 0 (length (u_ns s))) ++
-  map UAckToServer (acks_of c (u_c s)) ++ map UAckToClient (acks_of c (u_s s)) ++
-  [UTimerC; UTimerS; UTick].
+  map UDeliverToClient (seq 0 (length (u_ns s))) ++ [UTimerC; UTimerS; UTick].
 
 Inductive Reach (c : cfg) : ustate -> Prop :=
 | reach_init : Reach c (uinit c)
@@ -216,12 +168,43 @@ Proof.
   subst. reflexivity.
 Qed.
 
-Definition umem (s : ustate) (R : list ustate) : bool := existsb (ustate_eqb s) R.
+(* ---------- sets of states: hash buckets in a positive-keyed map ---------- *)
 
-Lemma umem_In s R : umem s R = true -> In s R.
+Definition mix (h x : N) : N := N.land (h * 1000003 + x + 1) 1073741823.
+Definition hash_list (l : list N) : N := fold_left mix l 7.
+
+Definition ep_feat (e : ep) : list N :=
+  [e_flight e; (match e_fst e with Waiting => 0 | Finished => 1 end); (if e_retr e then 1 else 0);
+   e_recvseq e; e_fbcur e; e_repoch e; e_lepoch e; (if e_est e then 1 else 0);
+   N.of_nat (length (e_frags e)); N.of_nat (length (e_queue e)); N.of_nat (length (e_out e));
+   N.of_nat (length (e_nst e)); hash_list (flat_map frag_key (e_pending e)); hash_list (flat_map frag_key (e_toack e));
+   hash_list (flat_map rec_key (e_queue e)); hash_list (flat_map rec_key (e_out e))].
+
+Definition ustate_hash (s : ustate) : positive :=
+  N.succ_pos (hash_list (ep_feat (u_c s) ++ ep_feat (u_s s) ++
+                         [(if u_rc s then 1 else 0); (if u_rs s then 1 else 0);
+                          hash_list (flat_map dgram_key (u_nc s)); hash_list (flat_map dgram_key (u_ns s))])).
+
+Definition smap := PositiveMap.t (list ustate).
+
+Definition umem (s : ustate) (R : smap) : bool :=
+  match PositiveMap.find (ustate_hash s) R with
+  | Some l => existsb (ustate_eqb s) l
+  | None => false
+  end.
+
+Definition uadd (s : ustate) (R : smap) : smap :=
+  let k := ustate_hash s in
+  PositiveMap.add k (s :: match PositiveMap.find k R with Some l => l | None => [] end) R.
+
+Definition states (R : smap) : list ustate := flat_map snd (PositiveMap.elements R).
+
+Lemma umem_In s R : umem s R = true -> In s (states R).
 Proof.
-  unfold umem. intro H. apply existsb_exists in H. destruct H as (x & Hx & He).
-  apply ustate_eqb_ok in He. now subst.
+  unfold umem, states. destruct (PositiveMap.find (ustate_hash s) R) as [l|] eqn:E; [|discriminate].
+  intro H. apply existsb_exists in H. destruct H as (x & Hx & He). apply ustate_eqb_ok in He. subst x.
+  apply in_flat_map. exists (ustate_hash s, l). split; [|exact Hx].
+  now apply PositiveMap.elements_correct.
 Qed.
 
 (* ---------- closure computation and the checker ---------- *)
@@ -229,13 +212,13 @@ Qed.
 Definition succs (c : cfg) (s : ustate) : list ustate :=
   flat_map (fun m => match ustep c s m with Some s' => [s'] | None => [] end) (moves_of c s).
 
-Fixpoint add_new (R : list ustate) (xs : list ustate) (acc : list ustate) : list ustate * list ustate :=
+Fixpoint add_new (R : smap) (xs : list ustate) (acc : list ustate) : smap * list ustate :=
   match xs with
   | [] => (R, acc)
-  | x :: xs' => if umem x R then add_new R xs' acc else add_new (x :: R) xs' (x :: acc)
+  | x :: xs' => if umem x R then add_new R xs' acc else add_new (uadd x R) xs' (x :: acc)
   end.
 
-Fixpoint closure (fuel : nat) (c : cfg) (R : list ustate) (frontier : list ustate) : list ustate :=
+Fixpoint closure (fuel : nat) (c : cfg) (R : smap) (frontier : list ustate) : smap :=
   match fuel with
   | O => R
   | S fuel' =>
@@ -247,39 +230,29 @@ Fixpoint closure (fuel : nat) (c : cfg) (R : list ustate) (frontier : list ustat
       end
   end.
 
-Definition reach_set (fuel : nat) (c : cfg) : list ustate := closure fuel c [uinit c] [uinit c].
+Definition reach_map (fuel : nat) (c : cfg) : smap :=
+  closure fuel c (uadd (uinit c) (PositiveMap.empty _)) [uinit c].
+Definition reach_set (fuel : nat) (c : cfg) : list ustate := states (reach_map fuel c).
 
-Definition closed (c : cfg) (R : list ustate) : bool :=
-  umem (uinit c) R && forallb (fun s => forallb (fun s' => umem s' R) (succs c s)) R.
+Definition closed (c : cfg) (R : smap) : bool :=
+  umem (uinit c) R && forallb (fun s => forallb (fun s' => umem s' R) (succs c s)) (states R).
 
 Definition live_check (fuel K : nat) (c : cfg) : bool :=
-  let R := reach_set fuel c in
-  closed c R && forallb (live_from K c) R.
-
-Lemma ack_eqb_ok a b : ack_eqb a b = true -> a = b.
-Proof.
-  destruct a as [e1 f1], b as [e2 f2]. unfold ack_eqb. cbn [fst snd]. intro H.
-  apply andl_prop in H. destruct H as [H1 H2]. apply N.eqb_eq in H1. apply lfeqb_ok in H2. now subst.
-Qed.
+  let R := reach_map fuel c in
+  closed c R && forallb (live_from K c) (states R).
 
 Lemma enabled_in_moves c s m s' : ustep c s m = Some s' -> In m (moves_of c s).
 Proof.
-  unfold moves_of. intro H. destruct m as [i | i | a | a | | | ]; cbn [ustep] in H.
+  unfold moves_of. intro H. destruct m as [i | i | | | ]; cbn [ustep] in H.
   - apply in_or_app. left. apply in_map. apply in_seq.
     destruct (nth_error (u_nc s) i) eqn:E; [|discriminate].
     assert (i < length (u_nc s))%nat by (apply nth_error_Some; congruence). lia.
   - apply in_or_app. right. apply in_or_app. left. apply in_map. apply in_seq.
     destruct (nth_error (u_ns s) i) eqn:E; [|discriminate].
     assert (i < length (u_ns s))%nat by (apply nth_error_Some; congruence). lia.
-  - do 2 (apply in_or_app; right). apply in_or_app. left.
-    destruct (existsb (ack_eqb a) (acks_of c (u_c s))) eqn:E; [|discriminate].
-    apply existsb_exists in E. destruct E as (x & Hx & He). apply ack_eqb_ok in He. subst x. now apply in_map.
-  - do 3 (apply in_or_app; right). apply in_or_app. left.
-    destruct (existsb (ack_eqb a) (acks_of c (u_s s))) eqn:E; [|discriminate].
-    apply existsb_exists in E. destruct E as (x & Hx & He). apply ack_eqb_ok in He. subst x. now apply in_map.
-  - do 4 (apply in_or_app; right). now left.
-  - do 4 (apply in_or_app; right). right. now left.
-  - do 4 (apply in_or_app; right). right. right. now left.
+  - apply in_or_app. right. apply in_or_app. right. now left.
+  - apply in_or_app. right. apply in_or_app. right. right. now left.
+  - apply in_or_app. right. apply in_or_app. right. right. right. now left.
 Qed.
 
 Lemma succs_complete c s m s' : ustep c s m = Some s' -> In s' (succs c s).
@@ -288,7 +261,7 @@ Proof.
   rewrite H. now left.
 Qed.
 
-Lemma closed_reach c R : closed c R = true -> forall s, Reach c s -> In s R.
+Lemma closed_reach c R : closed c R = true -> forall s, Reach c s -> In s (states R).
 Proof.
   unfold closed. intro H. apply andb_prop in H. destruct H as [Hi Hc].
   intros s Hr. induction Hr as [|s m s' Hr IH Hstep].
@@ -308,7 +281,7 @@ Qed.
 
 (* any boolean state predicate checked over the same closure holds in every reachable state *)
 Theorem closure_invariant fuel c (P : ustate -> bool) :
-  closed c (reach_set fuel c) = true -> forallb P (reach_set fuel c) = true ->
+  closed c (reach_map fuel c) = true -> forallb P (reach_set fuel c) = true ->
   forall s, Reach c s -> P s = true.
 Proof.
   intros Hc Hp s Hr. rewrite forallb_forall in Hp. apply Hp. eapply closed_reach; eauto.
